@@ -38,6 +38,7 @@ def _answers(prop, tier, system, thms, modes=(False,), level="model_checking"):
         infer.verify_algo(chk, tier)
         dcases = infer.distinguishing_cases(rng) + infer.distinguishing_cases(rng, "wAnyTie") + infer.distinguishing_cases(rng, "lexAllMcsF") + infer.distinguishing_cases(rng, "wMinCard")
         dcases += [c for c in (infer.gen_case_defaults(rng) for _ in range(60 if tier == "quick" else 1500)) if c]
+        dcases += [c for c in (infer.gen_case_chain(rng) for _ in range((220 if system in ("z", "p") else 80) if tier == "quick" else 2000)) if c]  # 3+ layers
         if tier == "thorough":
             found = [p for p in infer.search_distinguishing(chk, rng, 20000) if p.get("variant") == "lexAllPairs"]
             chk.cov["distinguishing_inputs_found_live"] = len(found)
